@@ -6,6 +6,7 @@
 -/
 import Proofs.Advert
 import Proofs.AdvertSys
+import Proofs.AdvertLife
 namespace Hap.Advert
 open Hap.AdvertSys
 
@@ -102,6 +103,87 @@ theorem C18_cfg_values_never {M V Hsh : Type} [DecidableEq Hsh] (H : NoVal M →
   have : st.hsh = some (H (renderNoVal old)) := hst
   simp [this]
 
+/-! ## the configuration number over the whole life of an accessory -/
+
+section Life
+open Hap.AdvertLife
+
+/-- Over every life of an accessory — any number of process lifetimes on one persist file, each
+    started with any accessories, with value changes, arbitrary structural changes by the
+    application, `config_changed` calls and saves in any order — the live configuration number
+    and the one in the persist file stay within 1..65535 (for every hash function). -/
+theorem C18_cfg_life_range {M V Hsh : Type} [DecidableEq Hsh] (H : NoVal M → Hsh)
+    (ops : List (Op M V)) :
+    (1 ≤ (AdvertLife.run H life0 ops).st.cfg ∧ (AdvertLife.run H life0 ops).st.cfg ≤ 65535) ∧
+    ∀ d, (AdvertLife.run H life0 ops).disk = some d → 1 ≤ d.cfg ∧ d.cfg ≤ 65535 :=
+  let h := ok_run H life0 ops ok_life0
+  ⟨h.st, h.disk⟩
+
+/-- Across a restart, after *any* earlier history `pre`: take a process started with the
+    accessories `old` in which anything but a structural change happens (`during`: value changes,
+    `config_changed`, saves), and restart it with the accessories `new`.  The configuration number
+    after the restart differs from the one before it exactly when the hash of the value-free
+    rendering differs; with a collision-free hash: exactly when structure or metadata of the
+    database as it was when the process stopped differ from the new ones — and never because of
+    values. -/
+theorem C18_cfg_life_restart_iff {M V Hsh : Type} [DecidableEq Hsh] (H : NoVal M → Hsh)
+    (pre during : List (Op M V)) (old new : Db M V) (hq : ∀ op ∈ during, op.quiet = true) :
+    let before := AdvertLife.run H life0 (pre ++ .restart old :: during)
+    let after := AdvertLife.step H before (.restart new)
+    (after.st.cfg ≠ before.st.cfg ↔ accHash H new ≠ accHash H old) ∧
+    (Function.Injective H → (after.st.cfg ≠ before.st.cfg ↔ renderNoVal new ≠ renderNoVal before.db)) := by
+  intro before after
+  have e : before = AdvertLife.run H (boot H (AdvertLife.run H life0 pre) old) during := by
+    show AdvertLife.run H life0 (pre ++ .restart old :: during) = _
+    rw [AdvertLife.run_append]; rfl
+  have hs : Started H old before := by
+    rw [e]
+    exact started_run H old _ during (fun op h => quiet_inProcess (hq op h)) (started_boot H _ old)
+  have hr : renderNoVal before.db = renderNoVal old := by
+    rw [e, render_run_quiet H _ during hq]; rfl
+  have h1 : after.st.cfg ≠ before.st.cfg ↔ accHash H new ≠ accHash H old := boot_cfg_iff H old new before hs
+  refine ⟨h1, ?_⟩
+  intro hinj
+  rw [h1, hr]
+  unfold accHash
+  constructor
+  · intro h e'; exact h (by rw [e'])
+  · intro h e'; exact h (hinj e')
+
+/-- Values never move the number, over whole lives: if the accessories after the restart are
+    those the process was started with up to a history of value changes, the number is kept. -/
+theorem C18_cfg_life_values_never {M V Hsh : Type} [DecidableEq Hsh] (H : NoVal M → Hsh)
+    (pre during : List (Op M V)) (old : Db M V) (vops : List (Nat × Nat × (V → V)))
+    (hq : ∀ op ∈ during, op.quiet = true) :
+    let before := AdvertLife.run H life0 (pre ++ .restart old :: during)
+    (AdvertLife.step H before (.restart (valueOps vops old))).st.cfg = before.st.cfg := by
+  intro before
+  have h := (C18_cfg_life_restart_iff H pre during old (valueOps vops old) hq).1
+  have e : accHash H (valueOps vops old) = accHash H old := by
+    unfold accHash; rw [renderNoVal_valueOps]
+  exact Classical.byContradiction fun hne => (h.mp hne) e
+
+/-- a hash that separates the two example databases (number of services) -/
+def lifeExH : NoVal Nat → Nat := fun r => (r.map fun a => a.2.length).sum
+def lifeExA : Db Nat Nat := [⟨1, [⟨1, 0, [⟨2, 0, 0⟩]⟩]⟩]
+def lifeExB : Db Nat Nat := [⟨1, [⟨1, 0, [⟨2, 0, 0⟩]⟩, ⟨8, 1, [⟨9, 1, 0⟩]⟩]⟩]
+
+/-- What the restart rule compares with is the configuration at the previous *start*: a
+    structural change made at run time and announced with `config_changed` is counted a second
+    time by the next start (1 → 2 at the first start, → 3 by `config_changed`, → 4 at the restart
+    with the very same accessories). The number still changes whenever the configuration did; it
+    is the converse ("only then") that holds relative to the previous start, not to the moment
+    the process stopped. -/
+theorem C18_cfg_life_runtime_change_counted_twice :
+    (AdvertLife.run lifeExH life0 [.restart lifeExA, .mutate (fun _ => lifeExB), .configChanged]).st.cfg = 3 ∧
+    renderNoVal (AdvertLife.run lifeExH life0 [.restart lifeExA, .mutate (fun _ => lifeExB), .configChanged]).db
+      = renderNoVal lifeExB ∧
+    (AdvertLife.run lifeExH life0
+      [.restart lifeExA, .mutate (fun _ => lifeExB), .configChanged, .restart lifeExB]).st.cfg = 4 :=
+  ⟨by decide, rfl, by decide⟩
+
+end Life
+
 /-! ## TXT record -/
 
 /-- `sf` is "1" exactly when the accessory has no pairings, in every constructed record. -/
@@ -119,17 +201,55 @@ theorem C18_id_is_mac (i : Info) :
     lookup "md" (advertData i) = some (String.ofList (validName i.display)) := by
   simp [advertData, lookup]
 
+/-- The record has exactly the nine HAP keys, each once and in this order (so no `lookup` above is
+    shadowed by an earlier duplicate), with the fixed protocol fields. -/
+theorem C18_txt_record_shape (i : Info) :
+    (advertData i).map Prod.fst = ["md", "pv", "id", "c#", "s#", "ff", "ci", "sf", "sh"] ∧
+    lookup "pv" (advertData i) = some "1.1" ∧ lookup "s#" (advertData i) = some "1" ∧
+    lookup "ff" (advertData i) = some "0" ∧ lookup "sh" (advertData i) = some i.setupHash := by
+  simp [advertData, lookup]
+
 /-! ## ordering of the refresh -/
 
 /-- In every trace of the response-processing model (any pairing table, any verified sessions,
-    any requests on any connections, session teardown after removals, any scheduling of executor jobs, loop callbacks and deferred responses): whenever a refreshed
-    record caused by request `rid` is handed to the advertiser, the response of request `rid` was
-    written earlier (`log` is newest-first, so `earlier` is the part of the log before it). -/
+    any requests on any connections, session teardown after removals, any scheduling of executor
+    jobs, loop callbacks and deferred responses, any application calls of `config_changed`,
+    `update_advertisement` and `unpair` in between, `safe_mode` on or off): whenever a refreshed record caused by request
+    `rid` is handed to the advertiser, the response of request `rid` was written earlier (`log` is
+    newest-first, so `earlier` is the part of the log before it). -/
 theorem C18_advert_after_response (info : Info) (p : Pairings) (sessions : List (Nat × Client))
-    (steps : List Step) (later earlier : List Obs) (rid : Nat) (txt : List (String × String))
-    (h : (run (init info p sessions) steps).log = later ++ Obs.publish rid txt :: earlier) :
+    (safe : Bool) (steps : List Step) (later earlier : List Obs) (rid : Nat) (txt : List (String × String))
+    (h : (run (init info p sessions safe) steps).log = later ++ Obs.publish (some rid) txt :: earlier) :
     ∃ conn, Obs.write conn rid ∈ earlier :=
-  (good_run _ steps (good_init info p sessions)).ord.split later earlier rid txt h
+  (good_run _ steps (good_init info p sessions safe)).ord.split later earlier rid txt h
+
+/-- ... and that write is the response of *that* request on *its* connection: take any trace, any
+    request step in it that is delivered on connection `conn` (the identifier it is given is the
+    `nextRid` of that moment), and any continuation. Every response write tagged with this request
+    is on `conn`, and a refreshed record caused by it is preceded by the write on `conn`. -/
+theorem C18_advert_after_own_response (info : Info) (p : Pairings) (sessions : List (Nat × Client))
+    (pre post : List Step) (conn : Nat) (r : Req)
+    (hc : isClosed (run (init info p sessions) pre) conn = false)
+    (later earlier : List Obs) (txt : List (String × String))
+    (h : (run (init info p sessions) (pre ++ .request conn r :: post)).log
+      = later ++ Obs.publish (some (run (init info p sessions) pre).nextRid) txt :: earlier) :
+    Obs.write conn (run (init info p sessions) pre).nextRid ∈ earlier ∧
+    ∀ c, Obs.write c (run (init info p sessions) pre).nextRid
+        ∈ (run (init info p sessions) (pre ++ .request conn r :: post)).log → c = conn := by
+  have e : run (init info p sessions) (pre ++ .request conn r :: post)
+      = run (step (run (init info p sessions) pre) (.request conn r)) post := by
+    rw [AdvertSys.run_append]; rfl
+  have hown : Own conn (run (init info p sessions) pre).nextRid
+      (run (init info p sessions) (pre ++ .request conn r :: post)) := by
+    rw [e]
+    exact own_run _ _ _ post (own_request _ conn r (fresh_run _ pre (fresh_init info p sessions)) hc)
+  obtain ⟨c, hcm⟩ := C18_advert_after_response info p sessions false _ later earlier _ txt h
+  have hin : Obs.write c (run (init info p sessions) pre).nextRid
+      ∈ (run (init info p sessions) (pre ++ .request conn r :: post)).log := by
+    rw [h]; exact List.mem_append_right _ (List.mem_cons_of_mem _ hcm)
+  have := hown.log c hin
+  subst this
+  exact ⟨hcm, hown.log⟩
 
 /-- The request tags in the log are meaningful: a request step is given the identifier `nextRid`,
     and in every trace every identifier that occurs in the log (response write, cipher install,
@@ -137,19 +257,60 @@ theorem C18_advert_after_response (info : Info) (p : Pairings) (sessions : List 
     trace — no entry is ever attributed to a request that has not happened yet. -/
 theorem C18_request_ids_fresh (info : Info) (p : Pairings) (sessions : List (Nat × Client))
     (steps : List Step) :
-    ∀ o ∈ (run (init info p sessions) steps).log, o.rid < (run (init info p sessions) steps).nextRid :=
+    ∀ o ∈ (run (init info p sessions) steps).log, ∀ r, o.rid = some r →
+      r < (run (init info p sessions) steps).nextRid :=
   (fresh_run _ steps (fresh_init info p sessions)).log
 
-/-- Every record handed to the advertiser in a trace states the pairing status of that moment:
-    `sf = "1"` iff no controller is paired when the record is built. -/
-theorem C18_published_sf_exact (s : Sys) (st : Step) (rid : Nat) (txt : List (String × String))
-    (h : (step s st).log = Obs.publish rid txt :: s.log) :
-    (lookup "sf" txt = some "1" ↔ s.paired = []) := by
-  have key : ∀ t, t = record s → (lookup "sf" t = some "1" ↔ s.paired = []) := by
-    intro t e; subst e; rw [record_sf]; unfold sfFor
-    cases hp : s.paired with
-    | nil => simp
-    | cons a b => simp
+/-- The last step of pairing and of unpairing does schedule a refresh, and only after its own
+    response write: a served request whose handling takes the pairing table from empty to
+    non-empty or back (pair-setup M5, a remove-pairing that leaves nobody paired — directly or
+    through the last-admin rule) is never a deferred response, never carries a session key, logs
+    its response write and *then* hands exactly one `finish_pair` job tagged with it to the executor. -/
+theorem C18_pairing_step_schedules_refresh (s : Sys) (conn : Nat) (r : Req)
+    (hc : isClosed s conn = false)
+    (hflip : (handle s.paired (sessionOf s conn) r).1.isEmpty ≠ s.paired.isEmpty) :
+    (step s (.request conn r)).log = Obs.write conn s.nextRid :: s.log ∧
+    (step s (.request conn r)).execQ = s.execQ ++ [s.nextRid] := by
+  have hp : (handle s.paired (sessionOf s conn) r).2.pairingChanged = true := by
+    cases h : (handle s.paired (sessionOf s conn) r).2.pairingChanged
+    · exact absurd (handle_unchanged _ _ _ h) hflip
+    · rfl
+  have ht := handle_changed_not_task _ _ _ hp
+  have hk := handle_changed_not_sharedKey _ _ _ hp
+  simp only [step, hc, Bool.false_eq_true, if_false, processResponse, ht, hk, hp, if_true]
+  cases (handle s.paired (sessionOf s conn) r).2.pairingRemoved <;> simp
+
+/-- Every record handed to the advertiser in a trace is built from the state of that moment:
+    it is `record s`, whose `sf` is "1" iff no controller is paired, whose `c#` is the current
+    configuration number and whose `id` / `ci` / `md` are the accessory's. -/
+theorem C18_published_record_exact (s : Sys) (st : Step) (cause : Option Nat) (txt : List (String × String))
+    (h : (step s st).log = Obs.publish cause txt :: s.log) :
+    txt = record s ∧
+    (lookup "sf" txt = some "1" ↔ s.paired = []) ∧
+    lookup "c#" txt = some (toString s.info.cfg) ∧
+    lookup "id" txt = some (String.ofList s.info.mac) ∧
+    lookup "ci" txt = some (toString s.info.category) ∧
+    lookup "md" txt = some (String.ofList (validName s.info.display)) := by
+  have key : txt = record s → txt = record s ∧
+      (lookup "sf" txt = some "1" ↔ s.paired = []) ∧
+      lookup "c#" txt = some (toString s.info.cfg) ∧
+      lookup "id" txt = some (String.ofList s.info.mac) ∧
+      lookup "ci" txt = some (toString s.info.category) ∧
+      lookup "md" txt = some (String.ofList (validName s.info.display)) := by
+    intro e
+    subst e
+    refine ⟨rfl, ?_, record_cfg s, ?_, ?_, ?_⟩
+    · rw [record_sf]; unfold sfFor
+      cases hp : s.paired with
+      | nil => simp
+      | cons a b => simp
+    · simp [record, advertData, lookup]
+    · simp [record, advertData, lookup]
+    · simp [record, advertData, lookup]
+  have hlen : ∀ {l : List Obs} {o : Obs}, l = o :: l → False := by
+    intro l o e
+    have := congrArg List.length e
+    simp at this
   cases st with
   | request conn r =>
     exfalso
@@ -182,29 +343,112 @@ theorem C18_published_sf_exact (s : Sys) (st : Step) (rid : Nat) (txt : List (St
     | none => simp [hd] at h
     | some r =>
       simp only [hd, List.cons.injEq, Obs.publish.injEq, and_true] at h
-      exact key txt h.2.symm
+      exact key h.2.symm
+  | configChanged => exact (hlen h).elim
+  | appRefresh => exact (hlen h).elim
+  | appUnpair c =>
+    exfalso
+    simp only [step] at h
+    split at h <;> exact hlen h
 
-/-- The advertised flag follows the pairing state: in every trace, once no refresh is pending
-    (executor and loop queues empty) the record held by the advertiser — the newest published
-    one, or the one registered at start — says `sf = "1"` iff no controller is paired. -/
+/-- Over every trace (requests, schedules, application calls) started with a configuration
+    number in range: every record ever handed to the advertiser is the TXT record of this
+    accessory — its name, category, MAC and setup hash — with a configuration number in 1..65535;
+    in particular the advertised identifier is always the accessory's and `c#` never leaves the range,
+    also when `config_changed` wraps it at 65535. -/
+theorem C18_published_records_wellformed (info : Info) (p : Pairings) (sessions : List (Nat × Client))
+    (steps : List Step) (hcfg : 1 ≤ info.cfg ∧ info.cfg ≤ 65535)
+    (cause : Option Nat) (txt : List (String × String))
+    (h : Obs.publish cause txt ∈ (run (init info p sessions) steps).log) :
+    ∃ n, 1 ≤ n ∧ n ≤ 65535 ∧ lookup "c#" txt = some (toString n) ∧
+      lookup "id" txt = some (String.ofList info.mac) ∧
+      lookup "ci" txt = some (toString info.category) ∧
+      lookup "md" txt = some (String.ofList (validName info.display)) ∧
+      lookup "sh" txt = some info.setupHash ∧
+      (lookup "sf" txt = some "0" ∨ lookup "sf" txt = some "1") := by
+  obtain ⟨n, pf, h1, h2, rfl⟩ := (pub_run info _ steps (pub_init info p sessions hcfg)).log cause txt h
+  refine ⟨n, h1, h2, ?_, ?_, ?_, ?_, ?_, ?_⟩ <;> try (simp [advertData, lookup])
+
+/-- `config_changed` moves the configuration number like `increment_config_version`: +1, and
+    65535 wraps to 1 (never 0, never 65536); nothing else in a trace touches it. -/
+theorem C18_config_changed_wraps (s : Sys) :
+    (step s .configChanged).info.cfg = bump s.info.cfg ∧ bump 65535 = 1 ∧
+    (∀ n, n < 65535 → bump n = n + 1) ∧ (∀ n, 1 ≤ bump n ∧ bump n ≤ 65535) :=
+  ⟨rfl, bump_wrap, bump_succ, bump_range⟩
+
+/-- The advertisement follows the state: in every trace without application-level `unpair`
+    calls, once no refresh is pending (executor and loop queues empty) the record held by the
+    advertiser — the newest published one, or the one registered at start — is the record of the
+    current state: `sf = "1"` iff no controller is paired, and `c#` is the current number. -/
 theorem C18_sf_tracks_pairing (info : Info) (p : Pairings) (sessions : List (Nat × Client))
-    (steps : List Step)
+    (steps : List Step) (hst : ∀ st ∈ steps, st.isAppUnpair = false)
     (he : (run (init info p sessions) steps).execQ = [])
     (hl : (run (init info p sessions) steps).loopQ = []) :
-    advertisedSf (initialSf info p) (run (init info p sessions) steps).log
-      = some (if (run (init info p sessions) steps).paired.isEmpty then "1" else "0") := by
-  rcases track_run _ _ steps (track_init info p sessions) with h | h
+    advertised (initialRecord info p) (run (init info p sessions) steps).log
+      = record (run (init info p sessions) steps) ∧
+    advertisedSf (initialRecord info p) (run (init info p sessions) steps).log
+      = some (if (run (init info p sessions) steps).paired.isEmpty then "1" else "0") ∧
+    lookup "c#" (advertised (initialRecord info p) (run (init info p sessions) steps).log)
+      = some (toString (run (init info p sessions) steps).info.cfg) := by
+  rcases track_run _ _ steps hst rfl (track_init info p sessions) with h | h
+  · rcases h with h | h
+    · exact absurd he h
+    · exact absurd hl h
+  · refine ⟨h, ?_, ?_⟩
+    · unfold advertisedSf; rw [h, record_sf]; rfl
+    · rw [h, record_cfg]
+
+/-- `AccessoryDriver.unpair` called by the application (not through a remove-pairing request)
+    changes the pairing table without any refresh; the flag is right again as soon as the
+    application asks for one: after *any* history, `update_advertisement()` followed by any
+    history free of further application-level unpairs leaves, at quiescence, the record of the
+    current state with the advertiser. -/
+theorem C18_sf_tracks_after_explicit_refresh (info : Info) (p : Pairings) (sessions : List (Nat × Client))
+    (pre post : List Step) (hst : ∀ st ∈ post, st.isAppUnpair = false)
+    (he : (run (init info p sessions) (pre ++ .appRefresh :: post)).execQ = [])
+    (hl : (run (init info p sessions) (pre ++ .appRefresh :: post)).loopQ = []) :
+    advertised (initialRecord info p) (run (init info p sessions) (pre ++ .appRefresh :: post)).log
+      = record (run (init info p sessions) (pre ++ .appRefresh :: post)) := by
+  have e : run (init info p sessions) (pre ++ .appRefresh :: post)
+      = run (step (run (init info p sessions) pre) .appRefresh) post := by
+    rw [run_append]; rfl
+  rw [e] at he hl ⊢
+  have hsm : (step (run (init info p sessions) pre) .appRefresh).safeMode = false :=
+    (step_safeMode _ _).trans (run_safeMode (init info p sessions) pre)
+  rcases track_run (initialRecord info p) _ post hst hsm (track_refresh _ _) with h | h
   · rcases h with h | h
     · exact absurd he h
     · exact absurd hl h
   · exact h
+
+/-- What the driver-API `unpair` alone does: the last admin is removed by the application, nothing
+    is pending, and the advertiser still holds `sf = "0"` although nobody is paired. (Outside the
+    request paths the property speaks about; recorded so that the hypothesis of
+    `C18_sf_tracks_pairing` is seen to be needed.) -/
+theorem C18_api_unpair_leaves_flag_stale :
+    let s := run (init ⟨['x'], 1, [], 1, false, ""⟩ [(7, true)] []) [.appUnpair 7]
+    s.paired = [] ∧ s.execQ = [] ∧ s.loopQ = [] ∧
+    advertisedSf (initialRecord ⟨['x'], 1, [], 1, false, ""⟩ [(7, true)]) s.log = some "0" := by
+  decide
+
+/-- With `safe_mode` set, `finish_pair` never touches the advertisement: in every trace no
+    record caused by a request is ever published (only application-requested refreshes are), and
+    the flag then stays as it was although the accessory got paired — the documented price of that
+    switch, and the reason `C18_sf_tracks_pairing` is stated for the default. -/
+theorem C18_safe_mode_no_pairing_refresh (info : Info) (p : Pairings) (sessions : List (Nat × Client))
+    (steps : List Step) :
+    (∀ rid txt, Obs.publish (some rid) txt ∉ (run (init info p sessions true) steps).log) ∧
+    (let s := run (init ⟨['x'], 1, [], 1, false, ""⟩ [] [] true) [.request 0 (.pairSetupM5 7 true), .execRun 0]
+     s.paired ≠ [] ∧ s.execQ = [] ∧ s.loopQ = [] ∧
+     advertisedSf (initialRecord ⟨['x'], 1, [], 1, false, ""⟩ []) s.log = some "1") :=
+  ⟨(quiet_run _ steps (quiet_init info p sessions)).log, by decide⟩
 
 /-- Scheduling the refresh before the response write (the defect `finish_pair`'s comment warns
     about) is rejected by the ordering statement: completing pair-setup publishes first. -/
 theorem C18_early_refresh_counterexample :
     ∃ (later earlier : List Obs) (rid : Nat) (txt : List (String × String)),
       (runEarly (init ⟨['x'], 1, [], 1, false, ""⟩ [] []) [.request 0 (.pairSetupM5 7 true)]).log
-        = later ++ Obs.publish rid txt :: earlier ∧ ¬ ∃ conn, Obs.write conn rid ∈ earlier :=
+        = later ++ Obs.publish (some rid) txt :: earlier ∧ ¬ ∃ conn, Obs.write conn rid ∈ earlier :=
   ⟨[Obs.write 0 0], [], 0, _, rfl, by simp⟩
 
 /-! ## setup payload -/
@@ -238,6 +482,17 @@ theorem C18_pin_in_range (pin : List Char) (hd : ∀ c ∈ pin, c = '-' ∨ isDi
     (h8 : (pin.filter fun c => c ≠ '-').length ≤ 8) : pinValue pin < 100000000 :=
   pinValue_lt pin hd h8
 
+/-- The whole chain for every pincode in the `xxx-xx-xxx` shape (digits and dashes, at most eight
+    digits — evaluated by the check on what `util.generate_pincode` produces), every category
+    below 256 and every setup id: the setup payload decodes to the accessory's category, the
+    number the pincode denotes, and the setup id. -/
+theorem C18_xhm_pin_roundtrip (category : Nat) (pin setupId : List Char) (hcat : category < 256)
+    (hp : PinShape pin) :
+    xhmDecode (xhmUri category (pinValue pin) setupId)
+      = some { version := 0, reserved := 0, category := category, flags := 2, code := pinValue pin,
+               setupId := setupId } :=
+  C18_xhm_roundtrip category (pinValue pin) setupId hcat (pinValue_lt pin hp.1 hp.2)
+
 /-! ## names -/
 
 /-- For every display name (any list of Unicode scalar values) and every well-formed MAC, the
@@ -251,6 +506,29 @@ theorem C18_names_valid (display mac : List Char) (hmac : WfMac mac) :
   obtain ⟨n1, n2, n3, n4, _⟩ := validName_spec display
   obtain ⟨v1, v2, v3, v4, _⟩ := validHostName_spec display
   exact ⟨instanceLabel_valid _ _ n1 n2 n3 n4 hs, hostLabel_valid _ _ v1 v2 v3 v4 hs⟩
+
+/-- The same under the weaker, decidable hypothesis on the MAC that the proof actually uses (its
+    last eight characters hold six hexadecimal digits besides colons); the check evaluates this
+    hypothesis on the MACs `util.generate_mac` really produces. -/
+theorem C18_names_valid_mac_tail (display mac : List Char) (hmac : MacTailOk mac) :
+    ValidInstanceLabel (instanceLabel (validName display) mac) ∧
+    ValidHostLabel (hostLabel (validHostName display) mac) := by
+  obtain ⟨n1, n2, n3, n4, _⟩ := validName_spec display
+  obtain ⟨v1, v2, v3, v4, _⟩ := validHostName_spec display
+  exact ⟨instanceLabel_valid _ _ n1 n2 n3 n4 hmac, hostLabel_valid _ _ v1 v2 v3 v4 hmac⟩
+
+/-- The sanitisers see a display name only through the class `[A-Za-z0-9-]`: replacing every
+    symbol outside the class by any other symbol outside the class changes nothing. So nothing
+    depends on *which* foreign symbols a name contains — any script, emoji, control character or
+    white space, and also a lone surrogate of a Python `str` (which is not a Unicode scalar value
+    and crosses the line protocol as U+0000) behave alike. -/
+theorem C18_names_depend_on_class_only (f : Char → Char) (hf1 : ∀ c, okChar c = true → f c = c)
+    (hf2 : ∀ c, okChar c = false → okChar (f c) = false) (display : List Char) :
+    validName (display.map f) = validName display ∧
+    validHostName (display.map f) = validHostName display := by
+  unfold validName validHostName validNameLegacy validHostNameLegacy
+  rw [subInvalid_map f hf1 hf2]
+  exact ⟨rfl, rfl⟩
 
 /-- The sanitised names themselves: non-empty, at most 56 characters, only `[A-Za-z0-9-]`
     (plus single spaces in `md`), no space or dash at either end. -/
@@ -312,16 +590,48 @@ example : (restart (fun r => r.length) ⟨65535, some 1⟩ (exDb ++ [⟨2, []⟩
 example : (run (init ⟨['x'], 1, [], 1, false, ""⟩ [] [(1, 7)])
     [.request 0 (.pairSetupM5 7 true), .execRun 0, .loopRun 0,
      .request 1 (.removePairing 7), .execRun 0, .loopRun 0]).log.map
-      (fun o => match o with | .write c r => (0, c, r) | .cipher c r => (1, c, r) | .publish r _ => (2, 0, r))
+      (fun o => match o with | .write c r => (0, c, r) | .cipher c r => (1, c, r) | .publish r _ => (2, 0, r.getD 99))
     = [(2, 0, 1), (0, 1, 1), (2, 0, 0), (0, 0, 0)] := by decide
 /-- the self-removal above closes connection 1 (after its response): a later request on it is
     not delivered, the refresh still follows the response -/
 example : (run (init ⟨['x'], 1, [], 1, false, ""⟩ [(7, true)] [(1, 7)])
     [.request 1 (.removePairing 7), .request 1 .other, .request 1 (.pairSetupM5 8 true),
      .execRun 0, .loopRun 0]).log.map
-      (fun o => match o with | .write c r => (0, c, r) | .cipher c r => (1, c, r) | .publish r _ => (2, 0, r))
+      (fun o => match o with | .write c r => (0, c, r) | .cipher c r => (1, c, r) | .publish r _ => (2, 0, r.getD 99))
     = [(2, 0, 0), (0, 1, 0)] := by decide
 example : (run (init ⟨['x'], 1, [], 1, false, ""⟩ [(7, true)] [(1, 7)])
     [.request 1 (.removePairing 7)]).closed = [1] := by decide
+
+/-- the hypotheses of `C18_pairing_step_schedules_refresh` are satisfiable: the last admin removes
+    itself (the non-admin goes with it), and the first controller pairs -/
+example : (handle [(7, true), (8, false)] (some 7) (.removePairing 7)).1.isEmpty
+    ≠ ([(7, true), (8, false)] : Pairings).isEmpty := by decide
+example : (handle [] none (.pairSetupM5 7 true)).1.isEmpty ≠ ([] : Pairings).isEmpty := by decide
+/-- a trace with application calls: config_changed at 65535 wraps the advertised number to 1 -/
+example : (run (init ⟨['x'], 1, [], 65535, false, ""⟩ [] [])
+    [.request 0 (.pairSetupM5 7 true), .configChanged, .execRun 0, .loopRun 0, .loopRun 0]).log.map
+      (fun o => match o with
+        | .write c r => (0, c, r, "") | .cipher c r => (1, c, r, "")
+        | .publish r t => (2, 0, r.getD 99, (lookup "c#" t).getD "?" ++ "/" ++ (lookup "sf" t).getD "?"))
+    = [(2, 0, 0, "1/0"), (2, 0, 99, "1/0"), (0, 0, 0, "")] := by decide
+/-- the hypotheses of `C18_advert_after_own_response` on a concrete trace (`pre = []`, request 0 on
+    connection 3, then the executor and the loop run) -/
+example : ∃ txt, (run (init ⟨['x'], 1, [], 1, false, ""⟩ [] [])
+    ([] ++ .request 3 (.pairSetupM5 7 true) :: [.execRun 0, .loopRun 0])).log
+      = [] ++ Obs.publish (some (run (init ⟨['x'], 1, [], 1, false, ""⟩ [] []) []).nextRid) txt :: [Obs.write 3 0] :=
+  ⟨_, rfl⟩
+/-- the hypotheses of `C18_sf_tracks_pairing` are reachable: pair, config_changed, everything run -/
+example : (run (init ⟨['x'], 1, [], 9, false, ""⟩ [] [])
+      [.request 0 (.pairSetupM5 7 true), .configChanged, .execRun 0, .loopRun 0, .loopRun 0]).execQ = [] ∧
+    (run (init ⟨['x'], 1, [], 9, false, ""⟩ [] [])
+      [.request 0 (.pairSetupM5 7 true), .configChanged, .execRun 0, .loopRun 0, .loopRun 0]).loopQ = [] := by decide
+example : MacTailOk "AA:BB:CC:7A:8F:A9".toList := by decide
+example : PinShape "031-45-154".toList := by decide
+example : okChar 'é' = false ∧ okChar (Char.ofNat 0) = false := by decide
+/-- a whole life: first start, a value change, a restart with the same structure (kept), a restart
+    with one more service (moved), `config_changed` -/
+example : (AdvertLife.run lifeExH AdvertLife.life0
+    [.restart lifeExA, .value 1 2 (fun v => v + 1), .restart lifeExA, .restart lifeExB, .configChanged]).st.cfg = 4 := by
+  decide
 
 end Hap.Advert
